@@ -111,6 +111,7 @@ def check(ctx):
     check_lookup_superset_tolerated(ctx)
     check_tree_queried_with_own_nodes(ctx)
     check_validator_keys_maintained(ctx)
+    check_election_order_by_name(ctx)
     # the level that was dropped is filled in from the finer assignment by
     # the parent table of *that* level (shared with C01)
     from .C01 import check_backfill
@@ -807,3 +808,65 @@ def check_validator_keys_maintained(ctx,
            f'{len(inspected)} key(s) besides the hierarchy and the level '
            f'tables inspected by the validator ({sorted(inspected)}); '
            f'{n} reducer obligations', nontrivial=True)
+
+
+def check_election_order_by_name(ctx, rule='R-ORDER/elections-in-name-order'):
+    """all elections of one chunk of cells draw their bootstrap subsets
+    from one random generator, so which draws a parent gets depends on how
+    many parents were searched before it.  The reduced tree and a reference
+    that never had the level agree on the *names* of the nodes of every
+    level, not on the order in which they are stored (drop_level appends
+    the children of a removed node, a fresh tree lists them sorted).  The
+    loop that runs the elections therefore walks a sequence ordered by
+    name alone: a literal, `sorted(...)`, or a list that was `.sort()`ed
+    after it was last bound -- never a stored child list or the insertion
+    order of a table."""
+    fi = ctx.db.fn('type_assignment.election:run_type_assignment')
+    cfg = cfg_of(fi)
+    rd = rd_of(fi)
+    doms = cfg.dominators()
+
+    def draws(body):
+        for st in body:
+            for c in ast.walk(st):
+                if isinstance(c, ast.Call) and (
+                        any(k.arg == 'rng' for k in c.keywords) or any(
+                            isinstance(a, ast.Name) and a.id == 'rng'
+                            for a in c.args)):
+                    return True
+        return False
+
+    loops = []
+    for lp in ast.walk(fi.node):
+        if isinstance(lp, ast.For) and draws(lp.body) and not any(
+                isinstance(inner, ast.For) and inner is not lp
+                and draws(inner.body) for inner in ast.walk(lp)):
+            loops.append(lp)
+    if not loops:
+        raise AnalysisError(f'{fi.qual}: no loop hands `rng` to a callee')
+
+    from ..rules.order import plainly_sorted
+
+    def by_name(e, nid):
+        return plainly_sorted(fi, e, nid)
+
+    n = 0
+    for lp in loops:
+        for node in cfg.nodes_of(lp):
+            if node.id not in rd.live or node.kind not in ('for', 'loop'):
+                continue
+            n += 1
+            ok = by_name(lp.iter, node.id)
+            ctx.touch(fi)
+            ctx.ob(rule, f'{fi.qual}:for {unparse(lp.target)}',
+                   fi.loc(lp), ok,
+                   f'`{unparse(lp.iter)[:50]}` is ordered by name' if ok else
+                   f'the elections are run `for {unparse(lp.target)} in '
+                   f'{unparse(lp.iter)[:50]}`, which is not ordered by '
+                   'node name alone on every path: parents are searched '
+                   '(and draw from the shared generator) in an order the '
+                   'reduced tree and a tree that never had the level need '
+                   'not share')
+            break
+    ctx.floor(rule, 1)
+    return n
